@@ -101,4 +101,457 @@ theorem newLoop_ok (bits : Bits) (d : AttData) (c : List Nat) (i : Nat) (apv : G
         · rw [htrue]; simp [hmem]
         · rw [htrue]; intro h; cases h
 
+/-! ## the simulation relation -/
+
+structure AttInv (p : AttPool) (log : AttSpec) : Prop where
+  datasWF : p.datas.WF
+  indWF : p.individual.WF
+  aggWF : p.aggregate.WF
+  apvWF : p.aggPerValidator.WF
+  /-- `datas` maps a root to the data with that root -/
+  datasKey : ∀ k v, p.datas.get? k = some v → v.1 = k
+  /-- every aggregated data is a known data -/
+  aggSub : ∀ k, k ∈ p.aggregate.keys → k ∈ p.datas.keys
+  aggNone : ∀ d, p.aggregate.get? d = none ↔ aggsFor log d = []
+  /-- the stored aggregates of `d` are the accepted ones, oldest first; `Participants` is their OR -/
+  aggSome : ∀ d m, p.aggregate.get? d = some m →
+    m.aggregates = aggsFor log d ∧ m.participants = unionAll (aggsFor log d)
+  /-- the individual vote of `(v, e)` is the first accepted one -/
+  ind : ∀ v e, p.individual.get? (v, e) = singleRef log v e
+  /-- `(v, e)` is marked iff `v` takes part in an accepted aggregate with target `e` -/
+  apv : ∀ v e, (v, e) ∈ p.aggPerValidator.keys ↔ votedAgg log v e = true
+
+theorem attInv_new : AttInv (AttPool.new Cfg.fixed) [] := by
+  refine ⟨GoMap.wf_make, GoMap.wf_make, GoMap.wf_make, GoMap.wf_make, ?_, ?_, ?_, ?_, ?_, ?_⟩ <;>
+    simp [AttPool.new, Cfg.fixed, aggsFor, singleRef, votedAgg]
+
+/-- replacing the entry of one data in `aggregate` (and the marks) -/
+theorem attInv_update {p : AttPool} {log log' : AttSpec} (h : AttInv p log) {d : AttData}
+    (hd : d ∈ p.datas.keys) (m : MinAgg) (apv' : GoMap Assignment AttData)
+    (hagg : ∀ d', aggsFor log' d' = if d' = d then m.aggregates else aggsFor log d')
+    (hne : m.aggregates ≠ [])
+    (hpart : m.participants = unionAll m.aggregates)
+    (hind : ∀ v e, singleRef log' v e = singleRef log v e)
+    (hapvwf : apv'.WF)
+    (hapv : ∀ v e, (v, e) ∈ apv'.keys ↔ votedAgg log' v e = true) :
+    AttInv { p with aggregate := p.aggregate.insert d m, aggPerValidator := apv' } log' := by
+  refine ⟨h.datasWF, h.indWF, GoMap.wf_insert h.aggWF.nodup _ _, hapvwf, h.datasKey, ?_, ?_, ?_, ?_, hapv⟩
+  · intro k hk
+    rcases GoMap.mem_keys_insert.mp hk with rfl | hk
+    · exact hd
+    · exact h.aggSub k hk
+  · intro d'
+    simp only [GoMap.get?_insert, hagg d']
+    by_cases e : d' = d
+    · simp [e, hne]
+    · simp only [e, if_false]; exact h.aggNone d'
+  · intro d' m' hm'
+    simp only [GoMap.get?_insert] at hm'
+    rw [hagg d']
+    by_cases e : d' = d
+    · simp only [e, if_true, Option.some.injEq] at hm' ⊢
+      subst hm'; exact ⟨rfl, hpart⟩
+    · simp only [e, if_false] at hm' ⊢
+      exact h.aggSome d' m' hm'
+  · intro v e; rw [hind v e]; exact h.ind v e
+
+/-! ## `AddAttestation` -/
+
+theorem storeData_sim {p : AttPool} {log : AttSpec} (h : AttInv p log) (d : AttData) (c : List Nat) :
+    ∃ datas', p.storeData d c = .ok datas' ∧ AttInv { p with datas := datas' } log ∧ d ∈ datas'.keys := by
+  unfold AttPool.storeData
+  cases hg : p.datas.get? d with
+  | some x => exact ⟨p.datas, rfl, h, GoMap.mem_keys_iff.mpr ⟨x, hg⟩⟩
+  | none =>
+    refine ⟨p.datas.insert d (d, c), by simp [GoMap.set_of_wf h.datasWF], ?_, GoMap.mem_keys_insert.mpr (Or.inl rfl)⟩
+    refine ⟨GoMap.wf_insert h.datasWF.nodup _ _, h.indWF, h.aggWF, h.apvWF, ?_, ?_, h.aggNone, h.aggSome, h.ind, h.apv⟩
+    · intro k v hk
+      simp only [GoMap.get?_insert] at hk
+      by_cases e : k = d
+      · simp only [e, if_true, Option.some.injEq] at hk; subst hk; exact e.symm
+      · simp only [e, if_false] at hk; exact h.datasKey k v hk
+    · intro k hk
+      exact GoMap.mem_keys_insert.mpr (Or.inr (h.aggSub k hk))
+
+/-- the `count == 1` branch of the specification -/
+def specAddSingle (log : AttSpec) (att : Att) (committee : List Nat) : AttSpec × Bool :=
+  match singleParticipant att.bits committee with
+  | .ok v =>
+    match singleVote log v att.data.target with
+    | some d' => (log, d' = att.data)
+    | none => (log ++ [.single v att.data att.sig], true)
+  | _ => (log, false)
+
+/-- the aggregate branch of the specification -/
+def specAddAgg (log : AttSpec) (att : Att) (committee : List Nat) : AttSpec × Bool :=
+  match aggsFor log att.data with
+  | first :: rest =>
+    match covers (unionBits first.bits rest) att.bits with
+    | .ok true => (log, true)
+    | .ok false => (log ++ [.agg att.data att.bits att.sig committee], true)
+    | _ => (log, false)
+  | [] =>
+    if (participants att.bits committee).any (fun v => !votedAgg log v att.data.target) then
+      (log ++ [.agg att.data att.bits att.sig committee], true)
+    else (log, false)
+
+theorem spec_add_eq (log : AttSpec) (att : Att) (c : List Nat) :
+    Spec.add log att c =
+      if onesCount att.bits = 0 then (log, false)
+      else if onesCount att.bits = 1 then specAddSingle log att c
+      else if bitlistLen att.bits ≠ c.length then (log, false)
+      else specAddAgg log att c := rfl
+
+theorem singleParticipant_cases (a : Bits) (c : List Nat) :
+    (∃ v, singleParticipant a c = .ok v) ∨ singleParticipant a c = .err := by
+  rw [singleParticipant_spec']
+  unfold BitSpec.singleParticipant
+  split
+  · exact Or.inr rfl
+  · split
+    · exact Or.inl ⟨_, rfl⟩
+    · exact Or.inr rfl
+
+theorem addSingle_sim {p : AttPool} {log : AttSpec} (h : AttInv p log) (att : Att) (c : List Nat) :
+    ∃ p', p.addSingle att c = .ok (p', (specAddSingle log att c).2) ∧ AttInv p' (specAddSingle log att c).1 := by
+  unfold AttPool.addSingle specAddSingle
+  rcases singleParticipant_cases att.bits c with ⟨v, hv⟩ | hv
+  · simp only [hv, singleVote_eq, ← h.ind v att.data.target]
+    cases hget : p.individual.get? (v, att.data.target) with
+    | some ex =>
+      by_cases e : ex.1 = att.data
+      · exact ⟨p, by simp [e], h⟩
+      · exact ⟨p, by simp [e], h⟩
+    | none =>
+      simp only [GoMap.set_of_wf h.indWF, Option.map_none]
+      refine ⟨_, rfl, h.datasWF, GoMap.wf_insert h.indWF.nodup _ _, h.aggWF, h.apvWF, h.datasKey, h.aggSub, ?_, ?_, ?_, ?_⟩
+      · intro d; rw [aggsFor_append_single]; exact h.aggNone d
+      · intro d m; rw [aggsFor_append_single]; exact h.aggSome d m
+      · intro v' e'
+        rw [GoMap.get?_insert, singleRef_append_single]
+        by_cases e : (v', e') = (v, att.data.target)
+        · obtain ⟨rfl, rfl⟩ := Prod.mk.inj e
+          have : singleRef log v' att.data.target = none := by rw [← h.ind]; exact hget
+          simp [this]
+        · have e2 : ¬ (v = v' ∧ att.data.target = e') := by
+            rintro ⟨rfl, rfl⟩; exact e rfl
+          simp only [e, if_false, e2, Option.or_none]
+          exact h.ind v' e'
+      · intro v' e'; rw [votedAgg_append_single]; exact h.apv v' e'
+  · simp only [hv]
+    exact ⟨p, rfl, h⟩
+
+theorem covers_cases (a b : Bits) :
+    (∃ r, covers a b = .ok r ∧ a.length = b.length) ∨ covers a b = .err := by
+  unfold covers
+  split
+  · exact Or.inr rfl
+  · split
+    · exact Or.inr rfl
+    · rename_i h; exact Or.inl ⟨_, rfl, by simpa using h⟩
+
+theorem mem_partsFrom_iff_contains (bits : Bits) (c : List Nat) (v : Nat) :
+    (participants bits c).contains v = true ↔ v ∈ partsFrom bits c 0 := by
+  simp [participants_eq]
+
+theorem addAggregate_sim {p : AttPool} {log : AttSpec} (h : AttInv p log) (att : Att) (c : List Nat)
+    (hd : att.data ∈ p.datas.keys) (hlen : bitlistLen att.bits = c.length) :
+    ∃ p', p.addAggregate Cfg.fixed att c = .ok (p', (specAddAgg log att c).2) ∧
+      AttInv p' (specAddAgg log att c).1 := by
+  have hbound : 0 + c.length ≤ 8 * att.bits.length := by have := bitlistLen_le att.bits; omega
+  unfold AttPool.addAggregate specAddAgg
+  cases hget : p.aggregate.get? att.data with
+  | none =>
+    have hnil := (h.aggNone att.data).mp hget
+    obtain ⟨apv', has', hl, hwf', hkeys, hhas, hsame⟩ :=
+      newLoop_ok att.bits att.data c 0 p.aggPerValidator false h.apvWF hbound
+    have hcond : (participants att.bits c).any (fun v => !votedAgg log v att.data.target) = has' := by
+      rw [hhas, participants_eq, Bool.false_or]
+      apply List.any_congr rfl
+      intro v
+      have := h.apv v att.data.target
+      cases hv : votedAgg log v att.data.target
+      · have : (v, att.data.target) ∉ p.aggPerValidator.keys := fun hm => by rw [this.mp hm] at hv; cases hv
+        simp [this]
+      · simp [this.mpr hv]
+    simp only [hget, hnil, hl, hcond]
+    cases has' with
+    | false =>
+      have := hsame rfl; subst this
+      exact ⟨p, by simp, h⟩
+    | true =>
+      simp only [GoMap.set_of_wf h.aggWF, if_true]
+      refine ⟨_, rfl, attInv_update h hd ⟨[⟨att.bits, att.sig⟩], att.bits, []⟩ apv' ?_ (by simp) rfl ?_ hwf' ?_⟩
+      · intro d'; rw [aggsFor_append_agg]
+        by_cases e : d' = att.data
+        · subst e; simp [hnil]
+        · have e' : ¬ att.data = d' := fun x => e x.symm
+          simp [e, e']
+      · intro v e; exact singleRef_append_agg ..
+      · intro v e
+        rw [hkeys, votedAgg_append_agg, h.apv v e, Bool.or_eq_true, Bool.and_eq_true,
+          mem_partsFrom_iff_contains, decide_eq_true_eq]
+        constructor
+        · rintro (hh | ⟨v', hv', hk⟩)
+          · exact Or.inl hh
+          · obtain ⟨rfl, rfl⟩ := Prod.mk.inj hk; exact Or.inr ⟨rfl, hv'⟩
+        · rintro (hh | ⟨rfl, hv'⟩)
+          · exact Or.inl hh
+          · exact Or.inr ⟨v, hv', rfl⟩
+  | some ex =>
+    obtain ⟨hex1, hex2⟩ := h.aggSome att.data ex hget
+    have hne : aggsFor log att.data ≠ [] := fun e => by
+      rw [(h.aggNone att.data).mpr e] at hget; cases hget
+    cases haf : aggsFor log att.data with
+    | nil => exact absurd haf hne
+    | cons first rest =>
+      have hun : unionBits first.bits rest = ex.participants := by rw [hex2, haf]; rfl
+      simp only [hget, haf, hun]
+      rcases covers_cases ex.participants att.bits with ⟨r, hr, hlen2⟩ | hr
+      · simp only [hr]
+        cases r with
+        | true =>
+          simp only
+          by_cases hx : ex.extra.length < p.maxExtra
+          · simp only [hx, if_true, GoMap.set_of_wf h.aggWF]
+            have := attInv_update (log' := log) h hd
+              { ex with extra := ex.extra ++ [⟨att.bits, att.sig⟩] } p.aggPerValidator
+              (by intro d'; by_cases e : d' = att.data
+                  · subst e; simp [hex1]
+                  · simp [e])
+              (by simp only [hex1]; exact hne) (by simp only [hex1, hex2]) (fun _ _ => rfl) h.apvWF h.apv
+            exact ⟨_, rfl, this⟩
+          · simp only [hx, if_false]
+            exact ⟨p, rfl, h⟩
+        | false =>
+          have hor : Pool.or ex.participants att.bits = .ok (ex.participants.zipWith (· ||| ·) att.bits) := by
+            simp [Pool.or, hlen2]
+          obtain ⟨apv', hl, hwf', hkeys⟩ := markLoop_ok att.bits att.data c 0 p.aggPerValidator h.apvWF hbound
+          simp only [Cfg.fixed, if_true, hor, GoMap.set_of_wf h.aggWF, hl]
+          refine ⟨_, rfl, attInv_update h hd
+            { ex with aggregates := ex.aggregates ++ [⟨att.bits, att.sig⟩],
+                      participants := ex.participants.zipWith (· ||| ·) att.bits } apv' ?_ (by simp) ?_ ?_ hwf' ?_⟩
+          · intro d'; rw [aggsFor_append_agg]
+            by_cases e : d' = att.data
+            · subst e; simp [hex1]
+            · have e' : ¬ att.data = d' := fun x => e x.symm
+              simp [e, e']
+          · simp only [hex1]
+            rw [unionAll_append_singleton _ hne, ← hex2, hor]
+          · intro v e; exact singleRef_append_agg ..
+          · intro v e
+            rw [hkeys, votedAgg_append_agg, h.apv v e, Bool.or_eq_true, Bool.and_eq_true,
+              mem_partsFrom_iff_contains, decide_eq_true_eq]
+            constructor
+            · rintro (hh | ⟨v', hv', hk⟩)
+              · exact Or.inl hh
+              · obtain ⟨rfl, rfl⟩ := Prod.mk.inj hk; exact Or.inr ⟨rfl, hv'⟩
+            · rintro (hh | ⟨rfl, hv'⟩)
+              · exact Or.inl hh
+              · exact Or.inr ⟨v, hv', rfl⟩
+      · simp only [hr]
+        exact ⟨p, rfl, h⟩
+
+theorem att_add_sim {p : AttPool} {log : AttSpec} (h : AttInv p log) (att : Att) (c : List Nat) :
+    ∃ p', p.add Cfg.fixed att c = .ok (p', (Spec.add log att c).2) ∧ AttInv p' (Spec.add log att c).1 := by
+  rw [spec_add_eq]
+  unfold AttPool.add
+  by_cases h0 : onesCount att.bits = 0
+  · simp only [h0, if_true]; exact ⟨p, rfl, h⟩
+  · obtain ⟨datas', hs, hinv, hd⟩ := storeData_sim h att.data c
+    simp only [h0, if_false, hs]
+    by_cases h1 : onesCount att.bits = 1
+    · simp only [h1, if_true]
+      exact addSingle_sim hinv att c
+    · simp only [h1, if_false]
+      by_cases hl : bitlistLen att.bits = c.length
+      · simp only [hl, Cfg.fixed, bne_self_eq_false, Bool.and_false, Bool.false_eq_true, if_false, ne_eq,
+          not_true_eq_false]
+        exact addAggregate_sim hinv att c hd hl
+      · have : (bitlistLen att.bits != c.length) = true := by simpa using hl
+        simp only [Cfg.fixed, this, Bool.and_self, if_true, ne_eq, hl, not_false_eq_true]
+        exact ⟨_, rfl, hinv⟩
+
+/-! ## `Prune` -/
+
+theorem prune_eq {p : AttPool} {log : AttSpec} (h : AttInv p log) (e : Nat) :
+    p.prune e =
+      { datas := p.datas.eraseIf (fun x => decide (x.1.target < e - 1)),
+        individual := p.individual.eraseIf (fun x => decide (x.1.2 < e - 1)),
+        aggregate := p.aggregate.eraseIf (fun x => decide (x.1.target < e - 1)),
+        aggPerValidator := p.aggPerValidator.eraseIf (fun x => decide (x.1.2 < e - 1)),
+        maxExtra := p.maxExtra } := by
+  unfold AttPool.prune
+  simp only []
+  congr 1
+  · apply GoMap.eraseIf_congr
+    intro x hx
+    have := h.datasKey x.1 x.2 (GoMap.get?_of_mem h.datasWF.nodup hx)
+    simp only [this]
+  · apply GoMap.eraseIf_congr
+    intro x hx
+    have hk : x.1 ∈ p.aggregate.keys := List.mem_map.mpr ⟨x, hx, rfl⟩
+    obtain ⟨v, hv⟩ := GoMap.mem_keys_iff.mp (h.aggSub _ hk)
+    simp only [hv, h.datasKey _ _ hv]
+
+theorem att_prune_sim {p : AttPool} {log : AttSpec} (h : AttInv p log) (e : Nat) :
+    AttInv (p.prune e) (Spec.prune log e) := by
+  rw [prune_eq h e]
+  refine ⟨GoMap.wf_eraseIf h.datasWF _, GoMap.wf_eraseIf h.indWF _, GoMap.wf_eraseIf h.aggWF _,
+    GoMap.wf_eraseIf h.apvWF _, ?_, ?_, ?_, ?_, ?_, ?_⟩
+  · intro k v hk
+    simp only [GoMap.get?_eraseIf h.datasWF.nodup] at hk
+    cases hg : p.datas.get? k with
+    | none => simp [hg] at hk
+    | some v' =>
+      simp only [hg, Option.filter_some] at hk
+      split at hk
+      · cases hk; exact h.datasKey k v' hg
+      · cases hk
+  · intro k hk
+    have := (GoMap.mem_keys_eraseIf_key (fun k : AttData => decide (k.target < e - 1)) k).mp hk
+    exact (GoMap.mem_keys_eraseIf_key (fun k : AttData => decide (k.target < e - 1)) k).mpr
+      ⟨h.aggSub k this.1, this.2⟩
+  · intro d
+    simp only [GoMap.get?_eraseIf h.aggWF.nodup, aggsFor_prune]
+    by_cases hd : d.target < e - 1
+    · simp [hd, Option.filter]
+      cases p.aggregate.get? d <;> simp
+    · have := h.aggNone d
+      cases hg : p.aggregate.get? d with
+      | none => simpa [hd, hg] using this
+      | some m => simpa [hd, hg, Option.filter] using this
+  · intro d m hm
+    simp only [GoMap.get?_eraseIf h.aggWF.nodup] at hm
+    rw [aggsFor_prune]
+    cases hg : p.aggregate.get? d with
+    | none => simp [hg] at hm
+    | some m' =>
+      simp only [hg, Option.filter_some] at hm
+      by_cases hd : d.target < e - 1
+      · simp [hd] at hm
+      · simp only [hd, decide_false, Bool.not_false, if_true, Option.some.injEq] at hm
+        subst hm
+        simp only [hd, if_false]
+        exact h.aggSome d m' hg
+  · intro v ep
+    simp only [GoMap.get?_eraseIf h.indWF.nodup, singleRef_prune, h.ind v ep]
+    by_cases hd : ep < e - 1
+    · cases singleRef log v ep <;> simp [hd, Option.filter]
+    · cases singleRef log v ep <;> simp [hd, Option.filter]
+  · intro v ep
+    rw [votedAgg_prune, Bool.and_eq_true, ← h.apv v ep]
+    have := GoMap.mem_keys_eraseIf_key (m := p.aggPerValidator) (fun k : Assignment => decide (k.2 < e - 1)) (v, ep)
+    rw [this]
+    simp
+
+/-! ## `Search` -/
+
+theorem flatMap_update_perm {α β : Type} [DecidableEq α] (ks : List α) (hn : ks.Nodup) (d : α) (hd : d ∈ ks)
+    (F F' : α → List β) (x : β) (h1 : F' d = x :: F d) (h2 : ∀ k, k ≠ d → F' k = F k) :
+    (ks.flatMap F').Perm (x :: ks.flatMap F) := by
+  induction ks with
+  | nil => simp at hd
+  | cons a ks ih =>
+    simp only [List.nodup_cons] at hn
+    simp only [List.flatMap_cons]
+    by_cases e : a = d
+    · subst e
+      have : ks.flatMap F' = ks.flatMap F := by
+        have hall : ∀ k ∈ ks, F' k = F k := fun k hk => h2 k (fun e => hn.1 (e ▸ hk))
+        clear ih hd hn
+        induction ks with
+        | nil => rfl
+        | cons b ks ih2 =>
+          simp only [List.flatMap_cons, hall b List.mem_cons_self,
+            ih2 (fun k hk => hall k (List.mem_cons_of_mem _ hk))]
+      rw [h1, this]; exact List.Perm.refl _
+    · have hd' : d ∈ ks := by
+        rcases List.mem_cons.mp hd with rfl | h
+        · exact absurd rfl e
+        · exact h
+      rw [h2 a e]
+      exact ((ih hn.2 hd').append_left (F a)).trans List.perm_middle
+
+/-- what `Search` collects for one data -/
+def searchOne (log : AttSpec) (slot? idx? : Option Nat) (k : AttData) : List Att :=
+  if matchesFilter slot? idx? k then (aggsFor log k).map (fun a => ⟨k, a.bits, a.sig⟩) else []
+
+theorem search_cons_single (v : Nat) (d : AttData) (sg : Nat) (log : AttSpec) (s i : Option Nat) :
+    Spec.search (.single v d sg :: log) s i = Spec.search log s i := by simp [Spec.search]
+
+theorem search_cons_agg (d : AttData) (b : Bits) (sg : Nat) (c : List Nat) (log : AttSpec) (s i : Option Nat) :
+    Spec.search (.agg d b sg c :: log) s i =
+      if matchesFilter s i d then ⟨d, b, sg⟩ :: Spec.search log s i else Spec.search log s i := by
+  by_cases h : matchesFilter s i d <;> simp [Spec.search, h]
+
+theorem search_perm_spec (log : AttSpec) (s i : Option Nat) (ks : List AttData) (hn : ks.Nodup)
+    (hks : ∀ d, aggsFor log d ≠ [] → d ∈ ks) :
+    (ks.flatMap (searchOne log s i)).Perm (Spec.search log s i) := by
+  induction log with
+  | nil =>
+    have : ks.flatMap (searchOne [] s i) = [] := by
+      apply List.flatMap_eq_nil_iff.mpr
+      intro k _; simp [searchOne, aggsFor]
+    rw [this]; exact List.Perm.refl _
+  | cons ev log ih =>
+    cases ev with
+    | single v d sg =>
+      rw [search_cons_single]
+      have : searchOne (.single v d sg :: log) s i = searchOne log s i := by
+        funext k; simp [searchOne, aggsFor_cons_single]
+      rw [this]
+      exact ih (fun d' hd' => hks d' (by rwa [aggsFor_cons_single]))
+    | agg d b sg c =>
+      have ih' := ih (fun d' hd' => hks d' (by
+        rw [aggsFor_cons_agg]; split
+        · simp
+        · exact hd'))
+      have hdk : d ∈ ks := hks d (by simp [aggsFor_cons_agg])
+      rw [search_cons_agg]
+      by_cases hm : matchesFilter s i d
+      · simp only [hm, if_true]
+        refine (flatMap_update_perm ks hn d hdk (searchOne log s i) _ ⟨d, b, sg⟩ ?_ ?_).trans (ih'.cons _)
+        · simp [searchOne, hm, aggsFor_cons_agg]
+        · intro k hk
+          have : ¬ d = k := fun e => hk e.symm
+          simp [searchOne, aggsFor_cons_agg, this]
+      · simp only [hm, if_false]
+        have : searchOne (.agg d b sg c :: log) s i = searchOne log s i := by
+          funext k
+          by_cases e : d = k
+          · subst e; simp [searchOne, hm]
+          · simp [searchOne, aggsFor_cons_agg, e]
+        rw [this]; exact ih'
+
+theorem searchLoop_eq {p : AttPool} {log : AttSpec} (h : AttInv p log) (s i : Option Nat)
+    (l : List (AttData × (AttData × List Nat))) (hl : ∀ x ∈ l, x.2.1 = x.1) :
+    searchLoop Cfg.fixed p s i l = .ok ((l.map (·.1)).flatMap (searchOne log s i)) := by
+  induction l with
+  | nil => rfl
+  | cons x l ih =>
+    obtain ⟨k, d⟩ := x
+    have hk : d.1 = k := hl (k, d) List.mem_cons_self
+    have ih' := ih (fun x hx => hl x (List.mem_cons_of_mem _ hx))
+    simp only [searchLoop, hk, ih', List.map_cons, List.flatMap_cons, searchOne]
+    by_cases hm : matchesFilter s i k
+    · simp only [hm, if_true]
+      cases hg : p.aggregate.get? k with
+      | none =>
+        simp [Cfg.fixed, (h.aggNone k).mp hg]
+      | some m =>
+        simp [(h.aggSome k m hg).1]
+    · simp [hm]
+
+theorem att_search_sim {p : AttPool} {log : AttSpec} (h : AttInv p log) (s i : Option Nat) :
+    ∃ l, p.search Cfg.fixed s i = .ok l ∧ l.Perm (Spec.search log s i) := by
+  refine ⟨_, searchLoop_eq h s i p.datas.entries ?_, ?_⟩
+  · intro x hx; exact h.datasKey x.1 x.2 (GoMap.get?_of_mem h.datasWF.nodup hx)
+  · apply search_perm_spec log s i _ h.datasWF.nodup
+    intro d hd
+    apply h.aggSub
+    cases hg : p.aggregate.get? d with
+    | none => exact absurd ((h.aggNone d).mp hg) hd
+    | some m => exact GoMap.mem_keys_iff.mpr ⟨m, hg⟩
+
 end Zrnt.Pool
